@@ -6,6 +6,7 @@ Basic decomposition and orthogonalization.
 
 import torch as tn
 import numpy as np
+from torchtt import _verif
 
 
         
@@ -211,6 +212,9 @@ def round_tt(tt_cores,R,eps,Rmax,is_ttm=False):
         else:
             r_now = min([Rmax[i],rank_chop(S.numpy(),tn.linalg.norm(S).numpy()*eps)])
     
+        if _verif.enabled():
+            _s2 = (tn.abs(S)**2).cpu().numpy()
+            _verif.emit('chop', routine='round_tt', bond=i, d=d, eps_bond=float(eps), norm2=float(_s2.sum()), nsv=int(_s2.size), cap=int(min(Rmax[i], 2**31-1)), r=int(r_now), tail2=float(_s2[r_now:].sum()))
         U = U[:,:r_now]
         S = S[:r_now]
         V = V[:r_now,:]
@@ -384,6 +388,9 @@ def to_tt(A,N=None,eps=1e-14,rmax=100,is_sparse=False):
         # choose the rank according to eps tolerance
         r1 = rank_chop(s.cpu().numpy(), ep*tn.linalg.norm(s).cpu().numpy())
         r1 = min([r1,rmax[i+1]])
+        if _verif.enabled():
+            _s2 = (tn.abs(s)**2).cpu().numpy()
+            _verif.emit('chop', routine='to_tt', bond=i+1, d=d, eps_bond=float(ep), norm2=float(_s2.sum()), nsv=int(_s2.size), cap=int(min(rmax[i+1], 2**31-1)), r=int(r1), tail2=float(_s2[r1:].sum()))
         
         u = u[:,:r1]
         s = s[:r1]
